@@ -127,6 +127,10 @@ def run_code(case):
         sim = proj.sim
         j = sim.latest("T")
         u = sim.latest("U")
+        if j is None or u is None:
+            return CaseResult([Violation({"kind": "fresh-targets-not-submitted"},
+                                         f"first run of a fresh project submitted {[x.name for x in sim.submissions()]}, expected T and U")],
+                              True, ["code"])
         hist.set_job_state(sim, u, "running")
         where = case["where"]
         j.state = simsched.RUNNING  # abstract state is irrelevant: the displayed code is forced below
